@@ -162,10 +162,10 @@ def run(tier, seed):
     ck = Check('C08', tier, seed, level='model_checking')
     if tier == 'quick':
         ms, ds = [0, 1, 3, 16, 64, 128], [1, 2, 15, 16, 17, 254, 255, 256, 257, 300]
-        combos = [(m, d) for m in ms for d in ds if (m in (0, 3, 64) or d in (1, 16, 255, 256, 300))]
+        combos = [(m, d) for m in ms for d in ds if (m in (0, 3, 64) or d in (1, 16, 255, 256, 300))] + [(1, 65536)]   # a DST whose length does not fit 16 bits
     else:
         ms, ds = [0, 1, 2, 3, 4, 5, 6, 7, 8, 55, 56, 63, 64, 65, 128, 512], list(range(1, 301))
-        combos = [(m, d) for d in ds for m in ((0, 3, 64) if d not in (1, 16, 255, 256, 300) else ms)]
+        combos = [(m, d) for d in ds for m in ((0, 3, 64) if d not in (1, 16, 255, 256, 300) else ms)] + [(1, 65535), (1, 65536), (1, 65537), (0, 65791), (2, 131072)]
     jobs = []
     for fn in (0, 1):
         for (m, d) in combos:
